@@ -11,11 +11,19 @@ from sa.core import Repo
 localnames._ref = {}
 from sa import normalise
 normalise._ref_funcs = {}
+normalise._ref_globals = {}
 repo = Repo("/repo")
 funcs = {rel: sorted(m.funcs) for rel, m in repo.modules.items()}
 os.makedirs(os.path.join(HERE, "reference"), exist_ok=True)
 json.dump(funcs, open(os.path.join(HERE, "reference", "functions.json"), "w"), indent=0, sort_keys=True)
 normalise._ref_funcs = None
+normalise._ref_globals = None
+import ast as _ast0
+globs = {rel: sorted({t.id for st in m.tree.body if isinstance(st, (_ast0.Assign, _ast0.AnnAssign)) for t in (st.targets if isinstance(st, _ast0.Assign) else [st.target]) for t in _ast0.walk(t) if isinstance(t, _ast0.Name)}
+                     | {a.asname or a.name.split(".")[0] for st in _ast0.walk(m.tree) if isinstance(st, (_ast0.Import, _ast0.ImportFrom)) for a in st.names}
+                     | {st.name for st in m.tree.body if isinstance(st, (_ast0.FunctionDef, _ast0.ClassDef, _ast0.AsyncFunctionDef))})
+         for rel, m in repo.modules.items()}
+json.dump(globs, open(os.path.join(HERE, "reference", "globals.json"), "w"), indent=0, sort_keys=True)
 from sa.core import unparse
 import ast as _ast
 tests = {}
